@@ -503,6 +503,7 @@ def rule_G(ctx):
         'two fixes recorded at the same instant': ([(0, 0, 0), (6, 8, 0), (12, 16, 0), (12, 26, 5), (22, 26, 5)], [0.0, 2.0, 2.0, 6.0, 8.0]),
         'across New Year midnight (second 10 is 1 January, 00:00:00.000)': ([(0, 0, 0), (8, 6, 2), (8, 26, 2), (20, 42, 10), (20, 52, 10)], [0.0, 4.0, 10.0, 16.0, 20.0]),
         'starting at the epoch itself (1970-01-01 00:00:00.000), 2D length exactly 3': ([(0, 0, 0), (0.6, 0.8, 5), (0.6, 2.8, 5)], [0.0, 4.0, 10.0]),
+        'first fix at a fraction of a second': ([(0, 0, 0), (4, 3, 1), (4, 13, 2), (16, 18, 0)], [0.25, 2.25, 5.75, 8.25]),
     }
 
     def build(pts, times):
@@ -519,7 +520,8 @@ def rule_G(ctx):
         return None
 
     def near(u, v, tol=1e-6):
-        return u is not None and all(abs(a_ - b_) <= tol * max(1.0, abs(b_)) for a_, b_ in zip(u, v))
+        # (instants are sums of floating-point seconds counted from 1970: a few 1e-7 s of rounding each, i.e. up to 1e-4 m at the speeds of these tracks)
+        return u is not None and all(abs(a_ - b_) <= tol * max(1.0, abs(b_)) + 1e-4 for a_, b_ in zip(u, v))
     found = {}
     n_cases = 0
 
@@ -575,7 +577,8 @@ def rule_G(ctx):
         E0[0] = EPOCH_NEW_YEAR if 'New Year' in label else (0.0 if 'epoch itself' in label else EPOCH_DEFAULT)
         dur = times[-1] - times[0]
         # temporal: numeric steps (dividing the duration, not dividing it, longer than it), lists and a reference track
-        for step in (dur / 4.0, dur / 3.0 + 0.1, dur, dur * 1.5, 1.0):
+        # (... a step given as an int, steps whose multiples come within half a millisecond of the next whole second)
+        for step in (dur / 4.0, dur / 3.0 + 0.1, dur, dur * 1.5, 1.0, 2, 1) + ((0.3333, 0.4999) if label in ('irregular sampling', 'first fix at a fraction of a second') else ()):
             inst = []
             x = times[0]
             while x <= times[-1] + 1e-9:
